@@ -434,7 +434,7 @@ class ConvertTypeTransformation(ValueTransformation):
                     return SigmaNumber(str(val))
                 except SigmaValueError:
                     raise SigmaValueError(
-                        f"Value '{val}' can't be converted to number for {str(self)}"
+                        f"Value '{val}' can't be converted to number for {self.__class__.__name__}"
                     )
 
             if isinstance(val, SigmaExpansion):
@@ -445,7 +445,7 @@ class ConvertTypeTransformation(ValueTransformation):
                             val.values[i] = SigmaNumber(str(entry))
                         except SigmaValueError:
                             raise SigmaValueError(
-                                f"Value '{entry}' can't be converted to number for {str(self)}"
+                                f"Value '{entry}' can't be converted to number for {self.__class__.__name__}"
                             )
 
                 return val
